@@ -17,6 +17,8 @@ stated over `clusterTree n steps l`:
   `C06_primitive_generic_weighted_rounded` — entry points, under exactly the hypotheses of the C02/C03
   rounding theorems for weighted linkage.
 
+* `C06_weighted_margin_of_gap` — the margin in numbers: a relative gap `γ` with `8·n·u ≤ c`, `1 ≤ (1+γ)(1−c)`.
+
 Not proved: that IEEE arithmetic satisfies `Round.Model` / `ChainGeOn ok .weighted` (hypotheses; sampled).
 -/
 import Kodama.Props.C06Rounding
@@ -261,5 +263,65 @@ theorem C06_primitive_generic_weighted_rounded (L : OrderLaws α) (hbeq : BeqLe 
     (fun i s hi => (c₁ i s hi).2.2.2) (fun i s hi => (c₂ i s hi).2.2.2)
 
 end EntryPoints
+
+/-! ## The margin in numbers -/
+
+/-- Merge trees of a step list have at most `n` leaves. -/
+theorem card_clusterTree_le {n : Nat} {steps : List (Step α)} (ho : LabelsOrdered n steps) (l : Nat)
+    (hl : l < n + steps.length) : (clusterTree n steps l).leaves.card ≤ n := by
+  rw [clusterTree_leaves n steps ho steps.length l
+    (by by_cases c : l < n; exact Or.inl c; exact Or.inr ⟨hl, by omega⟩)]
+  exact card_leaves_le n steps steps.length l
+
+/-- **The margin in the property's words, weighted linkage**: a RELATIVE GAP `γ` between the exact
+`wdist` of the merged pair (non-negative) and that of every other present pair is a rounding-safe margin as
+soon as `8·n·u ≤ c` and `1 ≤ (1+γ)(1−c)`. -/
+theorem C06_weighted_margin_of_gap {D : Nat → Nat → K} {u : K} {n : Nat} {steps : List (Step α)}
+    (wf : WellFormed n steps)
+    (h0 : 0 ≤ u) (hu : u < 1) {c γ : K} (hc : 8 * (n : K) * u ≤ c) (hγ0 : 0 ≤ γ)
+    (hγ : 1 ≤ (1 + γ) * (1 - c))
+    (hgap : ∀ (i : Nat) (s : Step α), steps[i]? = some s →
+      ∀ p q : Nat, PresentBefore n steps i p → PresentBefore n steps i q → p < q →
+        ¬ (p = s.c1 ∧ q = s.c2) →
+        0 ≤ wdist D (clusterTree n steps s.c1) (clusterTree n steps s.c2) ∧
+        wdist D (clusterTree n steps s.c1) (clusterTree n steps s.c2) * (1 + γ) <
+          wdist D (clusterTree n steps p) (clusterTree n steps q)) :
+    WgtMarginAlong D u n steps := by
+  have ho := labelsOrdered_of_wf wf
+  intro i s hi p q hp hq hpq hne
+  obtain ⟨hnn, hlt⟩ := hgap i s hi p q hp hq hpq hne
+  have hil : i < steps.length := (List.getElem?_eq_some_iff.mp hi).1
+  have o := wf.ordered i s hi
+  simp only
+  have cA := card_clusterTree_le ho s.c1 (by omega)
+  have cB := card_clusterTree_le ho s.c2 (by omega)
+  have cX := card_clusterTree_le ho p (by have := hp.1; omega)
+  have cY := card_clusterTree_le ho q (by have := hq.1; omega)
+  generalize (clusterTree n steps s.c1).leaves.card = a at cA ⊢
+  generalize (clusterTree n steps s.c2).leaves.card = b at cB ⊢
+  generalize (clusterTree n steps p).leaves.card = x at cX ⊢
+  generalize (clusterTree n steps q).leaves.card = y at cY ⊢
+  generalize wdist D (clusterTree n steps s.c1) (clusterTree n steps s.c2) = mAB at hnn hlt ⊢
+  generalize wdist D (clusterTree n steps p) (clusterTree n steps q) = mXY at hlt ⊢
+  have hK : 2 * (a + b - 2) + 2 * (x + y - 2) ≤ 8 * n := by omega
+  have hw1 : (1 - u) ≤ 1 := by linarith
+  have hw0 : 0 ≤ (1 - u) := by linarith
+  have hmono : (1 - u) ^ (8 * n) ≤ (1 - u) ^ (2 * (a + b - 2) + 2 * (x + y - 2)) :=
+    pow_le_pow_of_le_one hw0 hw1 hK
+  have h1 := one_sub_mul_le_pow_w hu (8 * n)
+  have hk : ((8 * n : Nat) : K) * u = 8 * (n : K) * u := by push_cast; ring
+  rw [hk] at h1
+  have hg : 0 < 1 + γ := by linarith
+  have hw : 1 ≤ (1 + γ) * (1 - u) ^ (2 * (a + b - 2) + 2 * (x + y - 2)) :=
+    calc (1 : K) ≤ (1 + γ) * (1 - c) := hγ
+      _ ≤ (1 + γ) * (1 - 8 * (n : K) * u) := mul_le_mul_of_nonneg_left (by linarith) hg.le
+      _ ≤ (1 + γ) * (1 - u) ^ (8 * n) := mul_le_mul_of_nonneg_left h1 hg.le
+      _ ≤ _ := mul_le_mul_of_nonneg_left hmono hg.le
+  calc mAB = mAB * 1 := (mul_one _).symm
+    _ ≤ mAB * ((1 + γ) * (1 - u) ^ (2 * (a + b - 2) + 2 * (x + y - 2))) :=
+        mul_le_mul_of_nonneg_left hw hnn
+    _ = (mAB * (1 + γ)) * (1 - u) ^ (2 * (a + b - 2) + 2 * (x + y - 2)) := by ring
+    _ < mXY * (1 - u) ^ (2 * (a + b - 2) + 2 * (x + y - 2)) :=
+        mul_lt_mul_of_pos_right hlt (pow_pos (by linarith) _)
 
 end Kodama
